@@ -9,6 +9,8 @@ import (
 	"fmt"
 	"os"
 	"runtime"
+	"strings"
+	"time"
 
 	"verifharness/internal/core"
 	"verifharness/internal/drv"
@@ -23,7 +25,11 @@ func main() {
 	replay := flag.String("replay", "", "replay file")
 	emit := flag.Bool("emit", false, "child-process mode of C10: print one digest per case")
 	child := flag.Bool("child", false, "child-process mode of C11 (race-enabled binary): run the shared-schema histories")
+	crashcase := flag.String("crashcase", "", "run the implementation once on the case recorded in this crash-log file (no model)")
 	flag.Parse()
+	if *crashcase != "" {
+		os.Exit(runCrashCase(*crashcase))
+	}
 	known, flags := core.LoadKnown(*root)
 	nw := runtime.NumCPU()
 	if *replay != "" || *emit || *child {
@@ -97,4 +103,41 @@ func doReplay(c *core.Ctx, path string) int {
 	}
 	fmt.Println("no violation on this case")
 	return 0
+}
+
+// runCrashCase: the implementation alone on one recorded case; the process dies the way it died
+// in the run if this case is the one. Prints the case for the replay file.
+func runCrashCase(path string) int {
+	bs, err := os.ReadFile(path)
+	if err != nil || len(bs) < 11 {
+		return 3
+	}
+	var n int
+	fmt.Sscanf(string(bs[:10]), "%d", &n)
+	if 11+n > len(bs) {
+		return 3
+	}
+	f := strings.Fields(string(bs[11 : 11+n]))
+	if len(f) == 0 || core.Ops[f[0]] == nil {
+		return 3
+	}
+	args := make([][]byte, len(f)-1)
+	for i, a := range f[1:] {
+		if a != "-" {
+			args[i], _ = hex.DecodeString(a)
+		}
+	}
+	fmt.Println("CASE " + strings.Join(f, " "))
+	done := make(chan struct{})
+	go func() {
+		defer func() { _ = recover(); close(done) }()
+		core.Ops[f[0]](args)
+	}()
+	select {
+	case <-done:
+		return 0
+	case <-time.After(30 * time.Second):
+		fmt.Println("HANG")
+		return 4
+	}
 }
